@@ -62,6 +62,8 @@ def parse_struct(text):
         if am:
             ty, K = am.group(1).strip(), int(am.group(2))
         w = sum(l for _, l in ranges)
+        if ty.startswith('arbitrary_int::'):
+            ty = ty[len('arbitrary_int::'):]
         if ty == 'bool':
             kind = 'b'
         elif re.fullmatch(r'u\d+', ty):
